@@ -77,6 +77,10 @@ ASSUMPTIONS = [
     "equal match strings make clause 2 undecided for that history",
     "DEHB is run with as many brackets as rungs and without failures (C05-K2, C05-K3); PASHA is not used (C04-K1)",
     "GP searchers are run with cheap fitting (opt_maxiter 5-10, num_init_random 2-3, opt_nstarts 1)",
+    "a runtime contract runs on the real ExclusionList (patched in place during a case): contains() must agree with a shadow "
+    "set of the configurations added, keyed as documented by Domain.match_string (exact for discrete values, 7 significant "
+    "digits for floats); the private exclusion lists are additionally read when None is returned, only to choose between the "
+    "mechanism keys ':retries_exhausted' and ':exclusion_list_full' (degrades to ':unknown')",
     "an exception out of suggest() is a violation; an exception out of another scheduler API ends the history and is "
     "counted (other_api_raised:*), it belongs to other properties",
 ]
@@ -129,6 +133,7 @@ def floors(tier):
         "decided:initial_point": 800 * k,
         "decided:midpoint_rule": 500 * k,
         "decided:no_repeat": 3000 * k,
+        "decided:exclusion_contains": 100000 * k,
         "decided:none": 60 * k,
         "no_repeat_with_pending_trial": 1000 * k,
         "no_repeat_with_failed_trial": 500 * k,
@@ -813,7 +818,9 @@ class Oracle:
             self.viol("initial_points", f"{self.init_path}:not_suggested_first", detail)
 
     # -- clause 4
-    def on_none(self, context=None):
+    def on_none(self, context=None, why="unknown"):
+        """why: read-only probe of the library's own exclusion list at the time of the None (secondary; only used to
+        tell 'the retry loop gave up' from 'the library believes the space is used up' in the mechanism key)."""
         o = self.o
         self.none_seen = True
         self.tags.append("X")
@@ -822,7 +829,8 @@ class Oracle:
             self.grid_none()
             return
         distinct = len(self.by_tpl)
-        detail = {"distinct_suggested": distinct, "space_size": self.size, "new_trials": self.n_new, "context": context}
+        detail = {"distinct_suggested": distinct, "space_size": self.size, "new_trials": self.n_new, "context": context,
+                  "library_exclusion_list": why}
         if self.size is None and self.below_resolution:
             o.count("undecided:none_on_space_below_match_string_resolution")
         elif self.size is None:
@@ -830,7 +838,7 @@ class Oracle:
         elif distinct < self.size and self.below_resolution:
             o.count("undecided:none_on_space_below_match_string_resolution")
         elif distinct < self.size:
-            self.viol("none_only_when_exhausted", f"{self.kind}:none_before_exhaustion:finite_space", detail)
+            self.viol("none_only_when_exhausted", f"{self.kind}:none_before_exhaustion:finite_space:{why}", detail)
         else:
             o.count("exhausted_spaces")
             o.count(f"exhausted:{self.kind}")
@@ -1198,6 +1206,94 @@ def _raise_key(kind, api, exc_name, msg):
     return f"raised:{api}:{kind}:{exc_name}{disc}"
 
 
+def why_none(obj, kind):
+    """Does the library's own exclusion list consider the finite space used up? (read-only probe of private state;
+    degrades to 'unknown')."""
+    try:
+        lists = []
+        s = obj if kind.startswith("direct") else getattr(obj, "searcher", None)
+        if kind == "dehb":
+            lists.append(obj._excl_list)
+        elif kind in GP_KINDS:
+            lists.append(s._get_exclusion_candidates())
+            if s._random_searcher is not None:
+                lists.append(s._random_searcher._excl_list)
+        else:
+            lists.append(s._excl_list)
+        return "exclusion_list_full" if any(x.config_space_exhausted() for x in lists) else "retries_exhausted"
+    except Exception:  # noqa: BLE001
+        return "unknown"
+
+
+class exclusion_contract:
+    """Runtime contract on the real ExclusionList (patched in place for the duration of one case): a shadow set of the
+    configurations added, keyed as documented (Domain.match_string: exact for discrete values, 7 significant digits for
+    Float); contains() must agree with the shadow, add() must make contains() true."""
+
+    def __init__(self, report, o):
+        self.report, self.o = report, o
+
+    def __enter__(self):
+        from syne_tune.config_space import Float
+        from syne_tune.optimizer.schedulers.searchers.utils.exclusion_list import ExclusionList as E
+
+        self.E = E
+        self.orig = {n: E.__dict__[n] for n in ("__init__", "add", "contains", "copy")}
+        o_init, o_add, o_contains, o_copy = (self.orig[n] for n in ("__init__", "add", "contains", "copy"))
+        report, o = self.report, self.o
+
+        def key(self_, config):
+            cs = self_.hp_ranges.config_space
+            out = []
+            for k in self_.keys:
+                v = _plain(config[k])
+                out.append(f"{v:.6e}" if isinstance(cs[k], Float) else v)
+            return tuple(out)
+
+        def __init__(self_, hp_ranges, configurations=None):
+            o_init(self_, hp_ranges, configurations)
+            self_._stv_shadow = None
+            if configurations is None or isinstance(configurations, list):
+                try:
+                    self_._stv_shadow = {key(self_, c) for c in (configurations or [])}
+                except Exception:  # noqa: BLE001
+                    self_._stv_shadow = None
+
+        def add(self_, config):
+            o_add(self_, config)
+            sh = getattr(self_, "_stv_shadow", None)
+            if sh is not None:
+                sh.add(key(self_, config))
+            o.count("decided:exclusion_add")
+            if not o_contains(self_, config):
+                report("exclusion_list", "exclusion_list:add_without_contains", {"config": config})
+
+        def contains(self_, config):
+            r = o_contains(self_, config)
+            sh = getattr(self_, "_stv_shadow", None)
+            if sh is not None:
+                o.count("decided:exclusion_contains")
+                exp = key(self_, config) in sh
+                if bool(r) != exp:
+                    report("exclusion_list", "exclusion_list:contains_true_for_config_never_added" if r
+                           else "exclusion_list:contains_false_for_added_config", {"config": config, "n_added": len(sh)})
+            return r
+
+        def copy(self_):
+            c = o_copy(self_)
+            sh = getattr(self_, "_stv_shadow", None)
+            c._stv_shadow = None if sh is None else set(sh)
+            return c
+
+        E.__init__, E.add, E.contains, E.copy = __init__, add, contains, copy
+        return self
+
+    def __exit__(self, *a):
+        for n, f in self.orig.items():
+            setattr(self.E, n, f)
+        return False
+
+
 # ------------------------------------------------------------------------------------------ vtuner monitor
 
 
@@ -1220,7 +1316,7 @@ class Monitor:
     def post_suggest(self, vt, next_id, sugg, t):
         orc, o = self.orc, self.orc.o
         if sugg is None:
-            orc.on_none({"running": len(vt.running)})
+            orc.on_none({"running": len(vt.running)}, why_none(self.sched, self.kind))
             return
         if sugg.config is not None:
             orc.check_config(sugg.config, "new" if sugg.spawn_new_trial_id else "resume")
@@ -1380,7 +1476,7 @@ def run_direct_case(spec, p, o):
                 break
             o.ev("get_config", n, None if cfg is None else "config")
             if cfg is None:
-                orc.on_none({"pending": len(pend)})
+                orc.on_none({"pending": len(pend)}, why_none(s, kind))
                 break
             o.count("suggestions")
             orc.check_config(dict({k: P["value"] for k, P in desc.items() if P["ctor"] == CONST}, **cfg), "new")
@@ -1415,11 +1511,15 @@ def run_direct_case(spec, p, o):
 def run_case(spec):
     o = Obs()
     p = expand(spec)
-    if p["kind"].startswith("direct"):
-        orc = run_direct_case(spec, p, o)
-        vt = None
-    else:
-        orc, vt = run_scheduler_case(spec, p, o)
+    contract_viol = []
+    with exclusion_contract(lambda c, m, d: contract_viol.append((c, m, d)), o):
+        if p["kind"].startswith("direct"):
+            orc = run_direct_case(spec, p, o)
+            vt = None
+        else:
+            orc, vt = run_scheduler_case(spec, p, o)
+    for c, m, d in contract_viol:
+        orc.viol(c, m, d)
     shape = sorted((P["ctor"], (dom_count(P) or -1) if P["ctor"] != CONST else 0) for P in orc.desc.values())
     o.set_sig((p["kind"], orc.tags, shape, p["allow_duplicates"]), nontrivial=orc.post_initial > 0)
     o.sample = {
